@@ -72,7 +72,7 @@ def model_check(chk: Check, tier: str, stats: dict) -> None:
 # ----------------------------------------------------------------------------------------------
 def judge(items: list[dict], workers: int) -> dict:
     payload = [{"fam": it["fam"], "dir": it["dir"], "p": it["p"], "rows": it["rows"]} for it in items]
-    return X.validate_items("WireCodecTrace", payload, workers=workers, timeout=1500, chunk=6000)
+    return X.validate_items("WireCodecTrace", payload, workers=workers, timeout=1500, chunk=1500)  # ~18 MB of JSON per JVM (the Json module fails on 70 MB)
 
 
 def report_rejects(chk: Check, items: list[dict], res: dict, stats: dict) -> None:
